@@ -42,9 +42,30 @@ func buildArmedHist(c *core.Ctx, idx int) *armedHist {
 		ah.stmts = append(ah.stmts, s)
 		return true
 	}
-	shape := r.Intn(6)
+	shape := r.Intn(8)
 	var armed *proto.Stmt
 	switch shape {
+	case 6:
+		// a statement whose log records total tens of kilobytes
+		t := pickUsable(h, r)
+		n := r.Range(40, 90)
+		armed = &proto.Stmt{Kind: "insert", Table: t.Name}
+		for i := 0; i < n; i++ {
+			armed.Rows = append(armed.Rows, h.NewRow(t, 2))
+		}
+		ah.shape = "insert-bulk"
+	case 7:
+		t := pickUsable(h, r)
+		for i := 0; i < 4; i++ {
+			ah.stmts = append(ah.stmts, h.Burst(t, r.Range(60, 120)))
+		}
+		if r.Bool() {
+			armed = &proto.Stmt{Kind: "update", Table: t.Name, Sets: []proto.SetItem{{Col: "g", Val: proto.Int(int64(r.Range(10, 99)))}}}
+			ah.shape = "update-bulk"
+		} else {
+			armed = &proto.Stmt{Kind: "delete", Table: t.Name, Where: model.Cmp(">=", model.ColOp("k"), model.LitOp(proto.Int(int64(r.Intn(50)))))}
+			ah.shape = "delete-bulk"
+		}
 	case 0, 1:
 		// multi-row INSERT crossing the first split of a fresh table: the
 		// root moves in mid-batch (catalog record inside the batch)
@@ -126,7 +147,7 @@ func checkC03(c *core.Ctx) []core.Floor {
 		runArmedHist(c, drv, buildArmedHist(c, i))
 	})
 	return []core.Floor{
-		{Key: "images_verified", Min: 1000}, {Key: "armed_insert-root-move", Min: 10}, {Key: "armed_update", Min: 10}, {Key: "armed_delete", Min: 10},
+		{Key: "images_verified", Min: 1000}, {Key: "armed_insert-root-move", Min: 10}, {Key: "armed_insert-bulk", Min: 10}, {Key: "log_batches_over_16KiB", Min: 10}, {Key: "armed_update", Min: 10}, {Key: "armed_delete", Min: 10},
 		{Key: "images_insert_sync_f", Min: 1}, {Key: "images_update_sync_f", Min: 1}, {Key: "images_delete_sync_f", Min: 1},
 		{Key: "images_insert_len_w", Min: 1}, {Key: "images_update_len_w", Min: 1}, {Key: "images_delete_len_w", Min: 1},
 		{Key: "continuations_ok", Min: 500},
@@ -209,6 +230,13 @@ func runArmedHist(c *core.Ctx, drv string, ah *armedHist) {
 		}
 	}
 	c.Count("armed_"+ah.shape, 1)
+	if len(events) >= 2 {
+		sz := int64(events[len(events)-1].Off) - int64(events[0].Off)
+		c.Max("largest_log_batch_bytes", sz)
+		if sz > 16384 {
+			c.Count("log_batches_over_16KiB", 1)
+		}
+	}
 	if nrec > nOps {
 		c.Count("armed_batches_with_catalog_record", 1)
 	}
